@@ -901,53 +901,94 @@ func ruleObjStmHeader(c *core.Ctx, rule string) {
 	g := fn.Graph()
 	info := fn.Info()
 	c.Check(rule, "pdf.(*Writer).WriteCompressed/offsets", "each header pair is 'number SP offset LF' with the offset sampled from the body buffer before the member is appended; /First is the header length after the last pair; /N is the number of members", func(o *core.Ob) {
-		body := localVar(fn, "body", 0)
-		head := localVar(fn, "head", 0)
-		// vertex sampling body.Len()
-		var sample, appendV, headWrite *core.V
+		// the body buffer is the one whose length is put into a header pair: strconv.Itoa(B.Len())
+		var body types.Object
+		var samples, appends []*core.V
+		var headWrite *core.V
+		for _, v := range g.Vs {
+			if v.AST == nil {
+				continue
+			}
+			for _, call := range core.CallsTo(info, v.AST, false, "strconv.Itoa") {
+				if len(call.Args) != 1 {
+					continue
+				}
+				if inner, ok := ast.Unparen(call.Args[0]).(*ast.CallExpr); ok {
+					if se, ok := inner.Fun.(*ast.SelectorExpr); ok && se.Sel.Name == "Len" {
+						if b := core.ObjOf(info, se.X); b != nil {
+							if body != nil && body != b {
+								core.Undecided("offsets are sampled from two different buffers")
+							}
+							body = b
+							samples = append(samples, v)
+						}
+					}
+				}
+			}
+		}
+		if body == nil {
+			core.Undecided("header construction not recognised: no strconv.Itoa(<buffer>.Len()) found")
+		}
 		for _, v := range g.Vs {
 			if v.AST == nil {
 				continue
 			}
 			for _, cs := range core.CallsIn(info, v.AST, false) {
-				if se, ok := cs.Call.Fun.(*ast.SelectorExpr); ok {
-					if se.Sel.Name == "Len" && core.ObjOf(info, se.X) == body {
-						sample = v
-					}
-					if se.Sel.Name == "WriteString" && core.ObjOf(info, se.X) == head {
-						headWrite = v
+				if se, ok := cs.Call.Fun.(*ast.SelectorExpr); ok && se.Sel.Name == "WriteString" && core.ObjOf(info, se.X) != body {
+					for _, sv := range samples {
+						if sv == v || g.ReachFrom(sv, false, nil)[v] {
+							headWrite = v
+						}
 					}
 				}
 				if cs.Key == "pdf.Format" && core.ObjOf(info, cs.Call.Args[0]) == body {
-					appendV = v
+					appends = append(appends, v)
 				}
 			}
 		}
-		if sample == nil || appendV == nil || headWrite == nil {
-			core.Undecided("header construction not recognised (sample=%v append=%v headWrite=%v)", sample != nil, appendV != nil, headWrite != nil)
+		if len(appends) == 0 || headWrite == nil {
+			core.Undecided("header construction not recognised (append=%v headWrite=%v)", len(appends) > 0, headWrite != nil)
 		}
-		o.At(fn.Site(sample.AST, "offset sampled"))
+		appendV := appends[0]
 		o.At(fn.Site(appendV.AST, "member appended"))
 		var lh *core.V
-		for _, h := range loopHeads(g) {
-			if g.ReachFrom(succ(h, core.EdgeTrue), true, core.AvoidVs(h))[sample] {
-				lh = h
+		inLoopSamples := 0
+		for _, sample := range samples {
+			o.At(fn.Site(sample.AST, "offset sampled"))
+			var loop *core.V
+			for _, h := range loopHeads(g) {
+				if g.ReachFrom(succ(h, core.EdgeTrue), true, core.AvoidVs(h))[sample] {
+					loop = h
+				}
+			}
+			if loop == nil {
+				continue // sampled once, outside the member loop (a peeled last member)
+			}
+			inLoopSamples++
+			lh = loop
+			for _, av := range appends {
+				// within one iteration the sample precedes the append
+				if g.ReachFrom(av, false, core.AvoidVs(loop))[sample] {
+					o.Fail("the offset is sampled after the member was appended")
+				}
+			}
+			follows := false
+			for _, av := range appends {
+				if g.ReachFrom(sample, false, core.AvoidVs(loop))[av] {
+					follows = true
+				}
+			}
+			o.Require(follows, "the member append does not follow the offset sample within the iteration")
+			// pair text: Itoa(number) + " " + Itoa(body.Len()) + "\n"
+			if as, ok := sample.AST.(*ast.AssignStmt); ok {
+				s := core.ExprStr(as.Rhs[0])
+				parts := strings.Split(s, " + ")
+				okShape := len(parts) == 4 && strings.Contains(parts[0], "Number()") && parts[1] == `" "` && strings.Contains(parts[2], ".Len()") && parts[3] == `"\n"`
+				o.Require(okShape, "header pair is built as %s, want number + \" \" + offset + \"\\n\"", s)
 			}
 		}
-		if lh == nil {
+		if lh == nil || inLoopSamples == 0 {
 			core.Undecided("member loop not found")
-		}
-		// within one iteration the sample precedes the append
-		if g.ReachFrom(appendV, false, core.AvoidVs(lh))[sample] {
-			o.Fail("the offset is sampled after the member was appended")
-		}
-		o.Require(g.ReachFrom(sample, false, core.AvoidVs(lh))[appendV], "the member append does not follow the offset sample within the iteration")
-		// pair text: Itoa(number) + " " + Itoa(body.Len()) + "\n"
-		if as, ok := sample.AST.(*ast.AssignStmt); ok {
-			s := core.ExprStr(as.Rhs[0])
-			parts := strings.Split(s, " + ")
-			okShape := len(parts) == 4 && strings.Contains(parts[0], "Number()") && parts[1] == `" "` && strings.Contains(parts[2], "body.Len()") && parts[3] == `"\n"`
-			o.Require(okShape, "header pair is built as %s, want number + \" \" + offset + \"\\n\"", s)
 		}
 		// a member separator: after each buffered member one white-space byte
 		sep := false
@@ -1399,6 +1440,14 @@ func ruleObjStmSlots(c *core.Ctx, rule string) {
 						if id, ok := call.Fun.(*ast.Ident); ok && id.Name == "len" && len(call.Args) == 1 {
 							if a := core.ObjOf(info, call.Args[0]); a == refs || a == objects {
 								nVars[core.ObjOf(info, x.Lhs[0])] = true
+							}
+						}
+					}
+					// last := N - 1 (the slot of the last member)
+					if be, ok := ast.Unparen(x.Rhs[0]).(*ast.BinaryExpr); ok && be.Op == token.SUB {
+						if k, ok := core.IntConst(info, be.Y); ok && k == 1 && nVars[core.ObjOf(info, be.X)] {
+							if lo := core.ObjOf(info, x.Lhs[0]); lo != nil && len(core.AssignsTo(info, fn.Decl, lo)) == 1 {
+								pos[lo] = true
 							}
 						}
 					}
